@@ -34,17 +34,10 @@ structure Good (E : Env) (s : State) : Prop where
   rid : ∀ r ∈ s.db.messages, ∀ k, s.nextRid ≤ k → r.remoteId ≠ E.rid k
 
 /-- the named hypotheses of the `_partial` theorems, per command -/
-def StepOk (E : Env) (U : List String) (s : State) : Act.Cmd → Prop
-  | .append _ fl lit => lit.gid = none ∧ FlagsIn U fl
-  | .store _ _ _ fl => NoForward fl ∧ FlagsIn U fl
-  | .move src _ msgs => ∀ row, selected E s src = .ok row → NamedInSrc s row.id msgs
+def StepOk : Act.Cmd → Prop
+  | .append _ _ lit => lit.gid = none
+  | .store _ _ _ fl => NoForward fl
   | _ => True
-
-/-- the commands whose refinement needs `Spelling`: -FLAGS and FLAGS -/
-def needsSpelling : Act.Cmd → Prop
-  | .store _ _ .rem _ => True
-  | .store _ _ .set _ => True
-  | _ => False
 
 theorem lower_flagRecent : lower flagRecent = keyRecent := by decide
 
@@ -72,13 +65,13 @@ theorem Good.of_untouched {E : Env} {s s1 s' : State} (hG : Good E s) (hInv : In
     exact hG.rid r hr' k hk
 
 /-- **One command, answered OK, is one step of the reference.** -/
-theorem step_ref (E : Env) (hE : EnvOk E) (U : List String) (s : State) (hG : Good E s) (hW : FlagsWithin U s.db)
-    (c : Act.Cmd) (q : Second) (hU : needsSpelling c → Spelling U) (hc : StepOk E U s c) (h : (step E s c q).1 = .ok) :
-    abs (step E s c q).2 = MailboxRef.refStep (abs s) (toRef c) ∧ Good E (step E s c q).2 ∧ FlagsWithin U (step E s c q).2.db := by
+theorem step_ref (E : Env) (hE : EnvOk E) (s : State) (hG : Good E s)
+    (c : Act.Cmd) (q : Second) (hc : StepOk c) (h : (step E s c q).1 = .ok) :
+    abs (step E s c q).2 = MailboxRef.refStep (abs s) (toRef c) ∧ Good E (step E s c q).2 := by
   have hS := hE.sites
   cases c with
   | append mb flags lit =>
-    obtain ⟨hgid, hfU⟩ := hc
+    have hgid : lit.gid = none := hc
     simp only [step, toRef, MailboxRef.refStep] at h ⊢
     unfold Act.append at h ⊢
     by_cases hrec : (FSet.new flags).contains' flagRecent = true
@@ -111,11 +104,11 @@ theorem step_ref (E : Env) (hE : EnvOk E) (U : List String) (s : State) (hG : Go
         simp only at hf
         rw [getMessageIDFromRemoteID_fresh s.db (E.rid s.nextRid) (fun r hr => hG.rid r hr _ (Nat.le_refl _))] at hf
         simp only at hf
-        obtain ⟨i1, i2, i3, i4, i5, mrow, i6, i7⟩ := createNew_ref E hS { s with nextRid := s.nextRid + 1, nextId := s.nextId + 1 } s s1 hG.inv hG.fk mbox hrow lit flags _ hrec'
+        obtain ⟨i1, i2, i3, i5, mrow, i6, i7⟩ := createNew_ref E hS { s with nextRid := s.nextRid + 1, nextId := s.nextId + 1 } s s1 hG.inv hG.fk mbox hrow lit flags _ hrec'
           ⟨rfl, rfl, rfl, rfl⟩ _ hf
         obtain ⟨r1, r2, r3, r4, r5, r6⟩ := hro
         obtain ⟨j1, j2⟩ := r6 i1
-        refine ⟨?_, ⟨j1, ?_, ?_⟩, ?_⟩
+        refine ⟨?_, ⟨j1, ?_, ?_⟩⟩
         · rw [j2, i2, hname]
         · intro p hp; rw [r4] at hp; rw [r5]; exact i3 p hp
         · intro r hr k hk
@@ -129,9 +122,8 @@ theorem step_ref (E : Env) (hE : EnvOk E) (U : List String) (s : State) (hG : Go
             intro e
             have := hE.inj _ _ e
             omega
-        · intro p hp; rw [r4] at hp; exact i4 U hW hfU p hp
   | store mb msgs action flags =>
-    obtain ⟨hnf, hfU⟩ := hc
+    have hnf : NoForward flags := hc
     simp only [step, toRef, MailboxRef.refStep] at h ⊢
     by_cases hrec : (FSet.new flags).contains' flagRecent = true
     · simp [hrec] at h
@@ -148,7 +140,7 @@ theorem step_ref (E : Env) (hE : EnvOk E) (U : List String) (s : State) (hG : Go
       obtain ⟨ups, s1, hf, hro⟩ := stateDBWrite_ok _ _ _ _ _ ha
       obtain ⟨r1, r2, r3, r4, r5, r6⟩ := hro
       have key : Inv s1 ∧ abs s1 = MailboxRef.refStore (abs s) sel.name (msgs.map (·.1)) (storeOp action) flags ∧
-          FlagsWithin U s1.db ∧ (FkOk s.db → FkOk s1.db) ∧ s1.db.messages = s.db.messages ∧ s1.nextRid = s.nextRid := by
+          (FkOk s.db → FkOk s1.db) ∧ s1.db.messages = s.db.messages ∧ s1.nextRid = s.nextRid := by
         cases action with
         | add =>
           simp only [storeTx] at hf
@@ -156,31 +148,29 @@ theorem step_ref (E : Env) (hE : EnvOk E) (U : List String) (s : State) (hG : Go
           obtain ⟨ups', s2, hf, hp⟩ := hf
           rw [pureA_ok] at hp
           cases hp
-          obtain ⟨k1, k2, k3, k4, k5, k6⟩ := applyFlagsAdded_ref E hS s s1 hG.inv sel hrow _ flags hnf _ hf
-          exact ⟨k1, k2, k3 U hW hfU, k4, k5, k6⟩
+          exact applyFlagsAdded_ref E hS s s1 hG.inv sel hrow _ flags hnf _ hf
         | rem =>
           simp only [storeTx] at hf
           rw [bindA_ok] at hf
           obtain ⟨ups', s2, hf, hp⟩ := hf
           rw [pureA_ok] at hp
           cases hp
-          exact applyFlagsRemoved_ref E hS s s1 hG.inv sel hrow _ flags hnf U (hU trivial) hW hfU _ hf
+          exact applyFlagsRemoved_ref E hS s s1 hG.inv sel hrow _ flags hnf _ hf
         | set =>
           simp only [storeTx] at hf
           rw [bindA_ok] at hf
           obtain ⟨ups', s2, hf, hp⟩ := hf
           rw [pureA_ok] at hp
           cases hp
-          exact applyFlagsSet_ref E hS s s1 hG.inv sel hrow _ flags hnf U (hU trivial) hW hfU _ hf
-      obtain ⟨k1, k2, k3, k4, k5, k6⟩ := key
+          exact applyFlagsSet_ref E hS s s1 hG.inv sel hrow _ flags hnf _ hf
+      obtain ⟨k1, k2, k4, k5, k6⟩ := key
       obtain ⟨j1, j2⟩ := r6 k1
-      refine ⟨by rw [j2, k2, hname], ⟨j1, ?_, ?_⟩, ?_⟩
+      refine ⟨by rw [j2, k2, hname], ⟨j1, ?_, ?_⟩⟩
       · intro p hp; rw [r4] at hp; rw [r5]; exact k4 hG.fk p hp
       · intro r hr k hk
         rw [r5, k5] at hr
         rw [r3, k6] at hk
         exact hG.rid r hr k hk
-      · intro p hp; rw [r4] at hp; exact k3 p hp
   | expunge mb msgs =>
     simp only [step, toRef, MailboxRef.refStep] at h ⊢
     cases hsel : selected E s mb with
@@ -200,8 +190,7 @@ theorem step_ref (E : Env) (hE : EnvOk E) (U : List String) (s : State) (hG : Go
       cases hp
       obtain ⟨k1, k2, k3⟩ := actionRemove_ref E hS s s1 hG.inv sel hrow msgs _ hf
       obtain ⟨j1, j2⟩ := hro.2.2.2.2.2 k1
-      refine ⟨by rw [j2, k2, hname], hG.of_untouched j1 k3 hro, ?_⟩
-      intro p hp; rw [hro.2.2.2.1, k3.1] at hp; exact hW p hp
+      exact ⟨by rw [j2, k2, hname], hG.of_untouched j1 k3 hro⟩
   | copy src dst msgs =>
     simp only [step, toRef, MailboxRef.refStep] at h ⊢
     cases hd : destination E s dst with
@@ -224,8 +213,7 @@ theorem step_ref (E : Env) (hE : EnvOk E) (U : List String) (s : State) (hG : Go
         obtain ⟨ups, s1, hf, hro⟩ := stateDBWrite_ok _ _ _ _ _ ha
         obtain ⟨k1, k2, k3⟩ := actionAdd_ref E hS s s1 hG.inv d hrow msgs _ hf
         obtain ⟨j1, j2⟩ := hro.2.2.2.2.2 k1
-        refine ⟨by rw [j2, k2, hname], hG.of_untouched j1 k3 hro, ?_⟩
-        intro p hp; rw [hro.2.2.2.1, k3.1] at hp; exact hW p hp
+        exact ⟨by rw [j2, k2, hname], hG.of_untouched j1 k3 hro⟩
   | move src dst msgs =>
     simp only [step, toRef, MailboxRef.refStep] at h ⊢
     cases hd : destination E s dst with
@@ -247,10 +235,9 @@ theorem step_ref (E : Env) (hE : EnvOk E) (U : List String) (s : State) (hG : Go
         obtain ⟨hrow2, hname2⟩ := selected_ok hsel
         obtain ⟨a, ha⟩ := answerOf_ok _ h
         obtain ⟨ups, s1, hf, hro⟩ := stateDBWrite_ok _ _ _ _ _ ha
-        obtain ⟨k1, k2, k3⟩ := actionMove_ref E hS s s1 hG.inv sel d hrow2 hrow msgs (hc sel hsel) _ hf
+        obtain ⟨k1, k2, k3⟩ := actionMove_ref E hS s s1 hG.inv sel d hrow2 hrow msgs _ hf
         obtain ⟨j1, j2⟩ := hro.2.2.2.2.2 k1
-        refine ⟨by rw [j2, k2, hname, hname2], hG.of_untouched j1 k3 hro, ?_⟩
-        intro p hp; rw [hro.2.2.2.1, k3.1] at hp; exact hW p hp
+        exact ⟨by rw [j2, k2, hname, hname2], hG.of_untouched j1 k3 hro⟩
 
 /-- a command either returns the state it got, or runs one `stateDBWrite` on it -/
 theorem step_shape (E : Env) (s : State) (c : Act.Cmd) (q : Second) :
@@ -304,34 +291,34 @@ def okRef (E : Env) : State → List (Act.Cmd × Second) → List MailboxRef.Cmd
   | s, (c, q) :: rest => (if (step E s c q).1 = .ok then [toRef c] else []) ++ okRef E (step E s c q).2 rest
 
 /-- the named hypotheses along a history -/
-def HistOk (E : Env) (U : List String) : State → List (Act.Cmd × Second) → Prop
+def HistOk (E : Env) : State → List (Act.Cmd × Second) → Prop
   | _, [] => True
-  | s, (c, q) :: rest => StepOk E U s c ∧ (step E s c q).1 ≠ .no .secondTx ∧ HistOk E U (step E s c q).2 rest
+  | s, (c, q) :: rest => StepOk c ∧ (step E s c q).1 ≠ .no .secondTx ∧ HistOk E (step E s c q).2 rest
 
 theorem run_cons (E : Env) (s : State) (c : Act.Cmd) (q : Second) (rest : List (Act.Cmd × Second)) :
     (run E s ((c, q) :: rest)).1 = (run E (step E s c q).2 rest).1 := rfl
 
-theorem run_ref (E : Env) (hE : EnvOk E) (U : List String) (hU : Spelling U) (cmds : List (Act.Cmd × Second)) :
-    ∀ (s : State), Good E s → FlagsWithin U s.db → HistOk E U s cmds →
-      abs (run E s cmds).1 = MailboxRef.refRun (abs s) (okRef E s cmds) ∧ Good E (run E s cmds).1 ∧ FlagsWithin U (run E s cmds).1.db := by
+theorem run_ref (E : Env) (hE : EnvOk E) (cmds : List (Act.Cmd × Second)) :
+    ∀ (s : State), Good E s → HistOk E s cmds →
+      abs (run E s cmds).1 = MailboxRef.refRun (abs s) (okRef E s cmds) ∧ Good E (run E s cmds).1 := by
   induction cmds with
-  | nil => intro s hG hW _; exact ⟨rfl, hG, hW⟩
+  | nil => intro s hG _; exact ⟨rfl, hG⟩
   | cons p rest ih =>
-    intro s hG hW hH
+    intro s hG hH
     obtain ⟨c, q⟩ := p
     obtain ⟨h1, h2, h3⟩ := hH
     rw [run_cons]
     simp only [okRef]
     by_cases hok : (step E s c q).1 = .ok
-    · obtain ⟨a1, a2, a3⟩ := step_ref E hE U s hG hW c q (fun _ => hU) h1 hok
-      obtain ⟨b1, b2, b3⟩ := ih _ a2 a3 h3
-      refine ⟨?_, b2, b3⟩
+    · obtain ⟨a1, a2⟩ := step_ref E hE s hG c q h1 hok
+      obtain ⟨b1, b2⟩ := ih _ a2 h3
+      refine ⟨?_, b2⟩
       rw [b1, a1]
       simp [hok, MailboxRef.refRun]
     · have hs := step_unchanged E s c q hok h2
       rw [hs] at h3 ⊢
-      obtain ⟨b1, b2, b3⟩ := ih _ hG hW h3
-      refine ⟨?_, b2, b3⟩
+      obtain ⟨b1, b2⟩ := ih _ hG h3
+      refine ⟨?_, b2⟩
       rw [b1]
       simp [hok]
 
